@@ -663,8 +663,10 @@ class BytesField(Field):
     def encoded_length(self, val, markers: dict) -> int:
         if val is None:
             return 0
-        tl_size = get_tl_num_size(self.type_num) + get_tl_num_size(len(val))
-        return tl_size + len(val)
+        # A str is written as its UTF-8 encoding, whose length may differ from the number of characters
+        length = len(val.encode('utf-8')) if isinstance(val, str) else len(val)
+        tl_size = get_tl_num_size(self.type_num) + get_tl_num_size(length)
+        return tl_size + length
 
     def encode_into(self, val, markers: dict, wire: VarBinaryStr, offset: int) -> int:
         if val is None:
